@@ -19,9 +19,9 @@ Definition tol_out : T := cdiv S (D 1 0) (D 10000000 0).      (* 1e-7 *)
 Definition tol_init : T := cdiv S (D 1 0) (D 100000000 0).    (* 1e-8 *)
 
 Definition flatten_pout (o : pout QM) : list T :=
-  o_predict_xi _ o ++ o_predict_y _ o ++ o_predict_var _ o ++ o_predict_mse_obs _ o ++
-  o_update_xi _ o ++ o_update_u _ o ++ o_update_w _ o ++ o_update_var _ o ++ o_predict_err _ o ++
-  o_smooth_xi _ o ++ o_smooth_u _ o ++ o_smooth_w _ o ++ o_smooth_var _ o.
+  o_predict_xi o ++ o_predict_y o ++ o_predict_var o ++ o_predict_mse_obs o ++
+  o_update_xi o ++ o_update_u o ++ o_update_w o ++ o_update_var o ++ o_predict_err o ++
+  o_smooth_xi o ++ o_smooth_u o ++ o_smooth_w o ++ o_smooth_var o.
 
 (* indices at which the model's value and the implementation's differ; a length mismatch is
    reported as index 1000000 + (length of the model's list) *)
@@ -50,22 +50,22 @@ Variables n nw nu nyf nxi : nat.
 Definition run_case (deviation rescale_variance : bool) (s : solution QM n nw nu nyf nxi)
     (init_med : mx QM n 1) (init_mse : mx QM n n) (init_std_u : list T)
     (data : list (pdata QM n nw nu nyf)) (expected : list (option T)) :=
-  let s' := if deviation then deviation_solution QM n nw nu nyf nxi s else s in
-  let k := kalman_filter QM n nw nu nyf nxi deviation rescale_variance s init_med init_mse data in
-  let flat := concat (map flatten_pout (k_periods _ k)) in
-  let lk := k_lik _ k in
+  let s' := if deviation then deviation_solution s else s in
+  let k := kalman_filter deviation rescale_variance s init_med init_mse data in
+  let flat := concat (map flatten_pout (k_periods k)) in
+  let lk := k_lik k in
   let t_out := tol_out in let t_init := tol_init in
   (failing_from t_out 0 flat expected,
-   [all_close t_init (initialize_med QM n nw nu nyf nxi s') init_med;
-    all_small t_init (lyapunov_residual QM n nw nu nyf nxi s (cov_from_std QM nu init_std_u) init_mse)],
+   [all_close t_init (initialize_med s') init_med;
+    all_small t_init (lyapunov_residual s (cov_from_std QM nu init_std_u) init_mse)],
    (* likelihood: sum_num_obs, [[var_scale]; nll; det_Fi; pe_Fi_pe; contribution_0; contribution_1; ...] *)
-   Z.of_nat (l_sum_num_obs _ lk),
-   ([l_var_scale _ lk] :: approx_ll (l_nll _ lk)
-     :: k_det_Fi _ k :: k_pe_Fi_pe _ k :: map approx_ll (k_contributions _ k))).
+   Z.of_nat (l_sum_num_obs lk),
+   ([l_var_scale lk] :: approx_ll (l_nll lk)
+     :: k_det_Fi k :: k_pe_Fi_pe k :: map approx_ll (k_contributions k))).
 
 (* the model's numbers themselves (debugging aid of the harness) *)
 Definition dump_case (deviation rescale_variance : bool) (s : solution QM n nw nu nyf nxi)
     (init_med : mx QM n 1) (init_mse : mx QM n n) (data : list (pdata QM n nw nu nyf)) :=
-  let k := kalman_filter QM n nw nu nyf nxi deviation rescale_variance s init_med init_mse data in
-  concat (map flatten_pout (k_periods _ k)).
+  let k := kalman_filter deviation rescale_variance s init_med init_mse data in
+  concat (map flatten_pout (k_periods k)).
 End Run.
